@@ -111,5 +111,15 @@ func (f fuzzFailer) Fatalf(format string, args ...any) {
 	_ = os.MkdirAll(dir, 0o755)
 	p := filepath.Join(dir, "fuzz-"+f.sub+"-"+sha(b)[:12]+".json")
 	_ = os.WriteFile(p, b, 0o644)
+	// unindented copy for the driver (visible when the failing process is the
+	// coordinator, e.g. on a seed-corpus entry; worker stdout is not relayed)
+	fmt.Printf("VIOLATION property=%s replay=%s\n", f.id, p)
 	f.t.Fatalf("\nVIOLATION property=%s replay=%s\n%s", f.id, p, msg)
+}
+
+// shard0 is true in the single quick-tier process and in the first of the
+// thorough tier's shard processes: deterministic enumerations run only there.
+func shard0() bool {
+	v := os.Getenv("VERIF_SHARD")
+	return v == "" || v == "0"
 }
